@@ -485,6 +485,49 @@ def r19_5(ctx):
                 ctx.undecided(R, 'end:%s' % f.path, 'a returning path of the concatenating iterator is not in a recognised form: %s' % fmt(rv)[:60], fn=f)
         if n == 0:
             ctx.undecided(R, 'end:%s' % f.path, 'no ending path found', fn=f)
+        # a row the current file yielded is handed out: an iteration that got one and goes round again (skipping "blank" or otherwise
+        # unwanted rows) drops input - the empty line IS the empty key
+        for p in explore(f, max_visits=1, havoc=True, limit=2000):
+            if p.end != 'cut':
+                continue
+            def draws(x):
+                if is_call(x, '::next') or is_call(x, 'read_row') or is_call(x, '::read_record') or is_call(x, '::read_byte_record'):
+                    return True
+                if x[0] == 'closure' and x[1] in b.fns:
+                    return any((b.fns[x[1]].callee(t_) or '').rsplit('::', 1)[-1] in ('next', 'read_row', 'read_record', 'read_byte_record') for _, t_ in b.fns[x[1]].calls())
+                return False
+            got = [d for d in p.cdecisions() if d[2][0] == 'discr' and d[3] == 1 and d[2][1][0] == 'call' and any(draws(x) for x in walk(d[2][1]))
+                   and not any(is_inputs(x) or is_call(x, 'get_buf_reader') or is_call(x, '::pop') for x in walk(d[2]))]
+            if got:
+                ctx.violation(R, 'row-dropped:%s' % f.path, 'the iterator draws a row from the current file and goes on to the next one without handing it out (%s): rows of the input are silently skipped' % (
+                    fmt(p.decisions[-1][2])[:80] if p.decisions else ''), fn=f)
+                break
+
+
+def r19_5b(ctx):
+    """the CSV readers hand over keys as written: a reader configured to trim fields, to treat some lines as comments or to use another
+    delimiter changes which keys (and how many rows) the build sees"""
+    R = ctx.rule('R19.5', 'input concatenation: the row iterator ends only when no input file is left (an exhausted or empty file is skipped)', floor=2)
+    b = ctx.bin
+    ALTER = {'trim': 'fields are trimmed: keys that differ only in surrounding white space collapse into one',
+             'comment': 'lines starting with the comment byte are dropped: keys starting with it disappear',
+             'delimiter': 'another delimiter splits rows differently', 'quote': 'another quote character', 'quoting': 'quoting disabled / changed', 'escape': 'an escape character is interpreted inside keys',
+             'terminator': 'another record terminator', 'ascii': 'ASCII separators', 'double_quote': 'doubled quotes handled differently'}
+    n = 0
+    for f in b.fn_list:
+        if f.from_expansion:
+            continue
+        for _, t in f.calls():
+            cal = f.callee(t) or ''
+            if cal.startswith('csv::ReaderBuilder::'):
+                m = cal.rsplit('::', 1)[-1]
+                n += 1
+                if m in ALTER:
+                    ctx.violation(R, 'csv-config:%s@%s' % (m, f.path), 'the CSV reader of %s is configured with %s(): %s - the keys of the result are no longer exactly the input keys' % (f.path.rsplit('::', 2)[-2] if '::' in f.path else f.path, m, ALTER[m]), fn=f, at=t.get('span'))
+                elif m not in ('new', 'has_headers', 'from_reader', 'from_path', 'buffer_capacity', 'flexible'):
+                    ctx.undecided(R, 'csv-config:%s@%s' % (m, f.path), 'the CSV reader is configured with %s(), which the rule does not know' % m, fn=f, at=t.get('span'))
+                else:
+                    ctx.ok(R, 'csv-config:%s@%s#%s' % (m, f.path, t.get('span')), None, f, t.get('span'))
 
 
 def r19_6(ctx):
@@ -808,6 +851,7 @@ def run(ctx):
     ctx.step(r19_lossless, ctx)
     ctx.step(r19_4, ctx)
     ctx.step(r19_5, ctx)
+    ctx.step(r19_5b, ctx)
     ctx.step(r19_6, ctx)
     ctx.step(r19_7, ctx)
     ctx.step(r19_8, ctx)
